@@ -26,7 +26,8 @@ type c11Case struct {
 	Dec      uint64
 	RateIdx  int
 	HoldIdx  int // index into holder values
-	HoldWho  int // 0 nobody holds, 1 sender holds, 2 recipient holds
+	HoldWho  int // 0 nobody holds, 1 sender holds, 2 recipient holds, 3 both hold (recipient: HoldIdx2)
+	HoldIdx2 int
 	BalMode  int // 0 exact, 1 exact-1, 2 zero, 3 unknown denom
 	DepKind  int // 0 SendToHubEvent, 1 TransferToChainEvent->hub
 }
@@ -52,6 +53,7 @@ func c11HolderValues() []*big.Int {
 type c11Res struct {
 	v       *engine.Violation
 	outcome string
+	com     *big.Int // recorded commission (external units) of an accepted send
 }
 
 func c11Run(in *hub.Instance, cs c11Case) c11Res {
@@ -67,6 +69,9 @@ func c11Run(in *hub.Instance, cs c11Case) c11Res {
 		g.Oracle.Holders = &oracletypes.Holders{List: []*oracletypes.Holder{{Address: user.String(), Value: sdk.NewIntFromBigInt(hv)}}}
 	case 2:
 		g.Oracle.Holders = &oracletypes.Holders{List: []*oracletypes.Holder{{Address: rcpt[2:], Value: sdk.NewIntFromBigInt(hv)}}}
+	case 3:
+		g.Oracle.Holders = &oracletypes.Holders{List: []*oracletypes.Holder{{Address: user.String(), Value: sdk.NewIntFromBigInt(hv)},
+			{Address: rcpt[2:], Value: sdk.NewIntFromBigInt(c11HolderValues()[cs.HoldIdx2])}}}
 	}
 	in.InitGenesis(g)
 	ctx := in.Ctx()
@@ -194,7 +199,7 @@ func c11Run(in *hub.Instance, cs c11Case) c11Res {
 	if sumExt.Cmp(toExt(total)) > 0 {
 		return bad("recorded_value_exceeds_debit", "createSendToExternal", "recorded %s external units > debit %s", sumExt, toExt(total))
 	}
-	return c11Res{outcome: fmt.Sprintf("send-ok-com%v", comExt.Sign() > 0)}
+	return c11Res{outcome: fmt.Sprintf("send-ok-com%v", comExt.Sign() > 0), com: comExt}
 }
 
 func c11Cases(tier string) []c11Case {
@@ -228,6 +233,26 @@ func c11Cases(tier string) []c11Case {
 						}
 					}
 				}
+			}
+		}
+	}
+	// both parties hold: every pair of holder values (the discount may not exceed what the better single holding earns)
+	e18 := pow10(18)
+	for _, d := range []uint64{6, 18} {
+		for i := range c11HolderValues() {
+			for j := range c11HolderValues() {
+				if i == 0 || j == 0 {
+					continue
+				}
+				out = append(out, c11Case{Kind: "send", Amount: e18, Fee: big.NewInt(100), Dec: d, RateIdx: 2, HoldIdx: i, HoldWho: 3, HoldIdx2: j})
+			}
+		}
+		for i := range c11HolderValues() {
+			if i == 0 {
+				continue
+			}
+			for who := 1; who <= 2; who++ {
+				out = append(out, c11Case{Kind: "send", Amount: e18, Fee: big.NewInt(100), Dec: d, RateIdx: 2, HoldIdx: i, HoldWho: who})
 			}
 		}
 	}
@@ -284,9 +309,42 @@ func init() {
 				}
 				_ = i
 			}
+			// pairs: commission(sender holds a, recipient holds b) >= min(commission(a alone), commission(b alone))
+			single := map[string]*big.Int{}
+			for i, c := range cases {
+				if c.Kind == "send" && (c.HoldWho == 1 || c.HoldWho == 2) && res[i].com != nil {
+					single[fmt.Sprintf("%s/%s/%d/%d/%d/%d", c.Amount, c.Fee, c.Dec, c.RateIdx, c.HoldWho, c.HoldIdx)] = res[i].com
+				}
+			}
+			pairsChecked := 0
+			for i, c := range cases {
+				if c.HoldWho != 3 || res[i].com == nil {
+					continue
+				}
+				a := single[fmt.Sprintf("%s/%s/%d/%d/%d/%d", c.Amount, c.Fee, c.Dec, c.RateIdx, 1, c.HoldIdx)]
+				b := single[fmt.Sprintf("%s/%s/%d/%d/%d/%d", c.Amount, c.Fee, c.Dec, c.RateIdx, 2, c.HoldIdx2)]
+				if a == nil || b == nil {
+					continue
+				}
+				pairsChecked++
+				lo := a
+				if b.Cmp(lo) < 0 {
+					lo = b
+				}
+				if res[i].com.Cmp(lo) < 0 {
+					v := engine.Violation{Property: "C11", Rule: "discount_exceeds_any_single_holder_tier", Site: "GetCommissionForHolder",
+						Detail: fmt.Sprintf("%+v: commission %s with sender holding %s and recipient holding %s, but %s with the sender's holding alone and %s with the recipient's alone", c, res[i].com, c11HolderValues()[c.HoldIdx], c11HolderValues()[c.HoldIdx2], a, b)}
+					sig := v.Property + "|" + v.Signature()
+					if !seen[sig] && !o.Known[sig] {
+						seen[sig] = true
+						out.Violations = append(out.Violations, engine.Found{Violation: v, Reproduced: 5})
+					}
+				}
+			}
+			outcomes["holder-pairs-compared"] = pairsChecked
 			nontrivial := 0
 			for k, v := range outcomes {
-				if k != "" && k != "send-failed" {
+				if k != "" && k != "send-failed" && k != "holder-pairs-compared" {
 					nontrivial += v
 				}
 			}
@@ -296,9 +354,9 @@ func init() {
 			}
 			out.Evidence = map[string]interface{}{"level": "exploration", "coverage": map[string]interface{}{
 				"evaluations": len(cases), "distinct_nontrivial": nontrivial,
-				"rule":        "Cartesian grid: amount, fee in {1,2,99,100,101,1e18-1,1e18,2^200} x external decimals {0,6,18,24} x commission rate {0,1e-18,1%,99.99%} x (sender balance {exact, exact-1, 0, unknown denom} | holder value at tier boundaries x {sender holds, recipient holds}) plus deposits (both event kinds) over amount x decimals; each tuple is executed on a fresh real instance; non-trivial = the request/event took effect (was not rejected)",
+				"rule":        "Cartesian grid: amount, fee in {1,2,99,100,101,1e18-1,1e18,2^200} x external decimals {0,6,18,24} x commission rate {0,1e-18,1%,99.99%} x (sender balance {exact, exact-1, 0, unknown denom} | holder value at tier boundaries x {sender holds, recipient holds}) plus every pair (sender holding, recipient holding) of tier-boundary values compared with the two single-holder runs, plus deposits (both event kinds) over amount x decimals; each tuple is executed on a fresh real instance; non-trivial = the request/event took effect (was not rejected)",
 				"samples":     samples, "outcomes": outcomes, "exhaustive": true,
-			}, "assumptions": []string{"the discount tier table itself is not part of the property: with a non-zero holding only the upper bound rate*(amount+fee) and the scheduled-amount bounds are demanded; with no holding equality is demanded", "block failures during deposit processing belong to C05"}}
+			}, "assumptions": []string{"the discount tier table itself is not part of the property: with a non-zero holding only the upper bound rate*(amount+fee) and the scheduled-amount bounds are demanded; with no holding equality is demanded; when both parties hold, the commission may not be lower than the lower of the two single-holder commissions measured on the same code", "block failures during deposit processing belong to C05"}}
 			out.Summary = fmt.Sprintf("cases=%d outcomes=%v violations=%d (%s)", len(cases), outcomes, len(out.Violations), time.Since(start).Round(time.Millisecond))
 			return out
 		}}
